@@ -132,6 +132,9 @@ class CLexer(HandLexerBase):
     octal_numbers = binary_numbers + "234567"
     numbers = octal_numbers + "89"
     hex_numbers = numbers + "abcdefABCDEF"
+    # space, horizontal tab, vertical tab, form feed and carriage return:
+    whitespace = " \t\v\f\r"
+    ws_to_space = re.compile("[\v\f\r]")
 
     def __init__(self, coptions):
         super().__init__()
@@ -174,7 +177,9 @@ class CLexer(HandLexerBase):
                 first = True
                 space = ""
             elif token.typ == "WS":
-                space += token.val
+                # Vertical tab, form feed and stray carriage return are
+                # passed on as a space:
+                space += self.ws_to_space.sub(" ", token.val)
             else:
                 yield CToken(token.typ, token.val, space, first, token.loc)
                 space = ""
@@ -212,14 +217,10 @@ class CLexer(HandLexerBase):
             return self.lex_identifier
         elif char in self.numbers:
             return self.lex_number
-        elif char in " \t":
+        elif char in self.whitespace:
             return self.lex_whitespace
         elif char in "\n":
             self.emit("BOL")
-            return self.lex_c
-        elif char == "\f":
-            # Skip form feed ^L chr(0xc) character
-            self.ignore()
             return self.lex_c
         elif char == "/":
             if self.accept("/"):
@@ -354,8 +355,11 @@ class CLexer(HandLexerBase):
         elif char == "\\":
             self.emit(char)
             return self.lex_c
-        else:  # pragma: no cover
-            raise NotImplementedError(char)
+        else:
+            # C99 6.4: each non-white-space character that cannot be one
+            # of the other preprocessing tokens is a token of its own.
+            self.emit(char)
+            return self.lex_c
 
     def lex_identifier(self):
         id_chars = self.lower_letters + self.upper_letters + self.numbers + "_"
@@ -395,7 +399,7 @@ class CLexer(HandLexerBase):
         return self.lex_c
 
     def lex_whitespace(self):
-        self.accept_run(" \t")
+        self.accept_run(self.whitespace)
         self.emit("WS")
         return self.lex_c
 
